@@ -252,6 +252,10 @@ func implC15(line string) string {
 		return withVM(func(vm *otto.Otto) string { return implJS(vm, f[1], f[2]) })
 	case "call":
 		return withVM(func(vm *otto.Otto) string { return implCall(vm, f) })
+	case "reent":
+		return withVM(func(vm *otto.Otto) string { return implReent(vm, f) })
+	case "api":
+		return withVM(func(vm *otto.Otto) string { return implAPI(vm, f[1]) })
 	case "callx":
 		return withVM(func(vm *otto.Otto) string { return implCallX(vm, f) })
 	case "jsh":
@@ -1079,6 +1083,255 @@ func genCallsX(c *h.Ctx) {
 	}
 }
 
+// ---------------------------------------------------------------- re-entrant API use from a host function
+
+// implReent: reent <form> <shadow> <m|p> <depth>: a JavaScript function that shadows the callee's name calls a Go
+// host function, which uses the API on the running runtime.  Token: "<binding reached through the API>#<binding
+// reached by the equivalent in-language code>" (global code call; direct eval for Otto.Eval).
+func implReent(vm *otto.Otto, f []string) string {
+	form, shadow, member, depth := f[1], f[2], f[3] == "m", f[4]
+	name, src, local := "helper", "helper", "localFn"
+	if member {
+		name, src, local = "ns", "ns.helper", "({helper: localFn})"
+	}
+	vm.Set("host", func(call otto.FunctionCall) otto.Value {
+		o := call.Otto
+		var v otto.Value
+		var err error
+		switch form {
+		case "ottoCall":
+			v, err = o.Call(src, nil, 1)
+		case "ottoCallThis":
+			v, err = o.Call(src, 5, 1)
+		case "ottoRun":
+			v, err = o.Run(src + "(1)")
+		case "ottoEval":
+			v, err = o.Eval(src + "(1)")
+		case "valueCall":
+			var fn otto.Value
+			if member {
+				nsv, _ := o.Get("ns")
+				fn, _ = nsv.Object().Get("helper")
+			} else {
+				fn, _ = o.Get("helper")
+			}
+			v, err = fn.Call(otto.UndefinedValue(), 1)
+		case "objectCall":
+			var ob *otto.Object
+			if member {
+				ob, err = o.Object("ns")
+			} else {
+				ob, err = o.Object("this")
+			}
+			if err == nil {
+				v, err = ob.Call("helper", 1)
+			}
+		}
+		if err != nil {
+			r, _ := otto.ToValue("error:" + strings.ReplaceAll(err.Error(), " ", "_"))
+			return r
+		}
+		return v
+	})
+	body := func(inner string) string {
+		switch shadow {
+		case "none":
+			return "function(){ return " + inner + " }"
+		case "var":
+			return "function(){ var " + name + " = " + local + "; return " + inner + " }"
+		case "param":
+			return "function(" + name + "){ return " + inner + " }"
+		case "catch":
+			return "function(){ try { throw " + local + " } catch (" + name + ") { return " + inner + " } }"
+		case "with":
+			return "function(){ with ({" + name + ": " + local + "}) { return " + inner + " } }"
+		}
+		panic("token syntax: shadow")
+	}
+	langInner := "globalCall()"
+	if form == "ottoEval" {
+		langInner = "eval('" + src + "(1)')"
+	}
+	setup := `
+function helper(x){ return "global" }
+function localFn(x){ return "local" }
+var ns = { helper: helper };
+function globalCall(){ return ` + src + `(1) }
+var callerApi = ` + body("host()") + `;
+var callerLang = ` + body(langInner) + `;
+function run(c){ return ` + map[string]string{"1": "c(" + local + ")", "2": "(function(){ var " + name + " = " + local + "; return c(" + local + ") })()"}[depth] + ` }
+`
+	if _, err := vm.Run(setup); err != nil {
+		return errTok(err)
+	}
+	api, err := vm.Run("run(callerApi)")
+	if err != nil {
+		return errTok(err)
+	}
+	lang, err := vm.Run("run(callerLang)")
+	if err != nil {
+		return errTok(err)
+	}
+	a, _ := api.ToString()
+	l, _ := lang.ToString()
+	return a + "#" + l
+}
+
+// ---------------------------------------------------------------- Go-API edge cases
+
+func apiTok(s string) string { return "t:" + hex.EncodeToString([]byte(s)) }
+
+func apiErrTok(err error) string {
+	if oe, ok := err.(*otto.Error); ok {
+		msg := oe.Error()
+		if i := strings.IndexByte(msg, ':'); i > 0 {
+			return "throw:" + msg[:i]
+		}
+		return "throw:" + msg
+	}
+	return "err"
+}
+
+func implAPI(vm *otto.Otto, c string) string {
+	bad := func() otto.Value {
+		v, err := vm.Run("({valueOf:function(){throw new RangeError('vo')},toString:function(){throw new RangeError('ts')}})")
+		if err != nil {
+			panic(err)
+		}
+		return v
+	}
+	typeofArg := func(arg interface{}) string {
+		fn, _ := vm.Run("(function(a){return typeof a})")
+		v, err := fn.Call(otto.UndefinedValue(), arg)
+		if err != nil {
+			return apiErrTok(err)
+		}
+		return apiTok(v.String())
+	}
+	callLog := func(src string, this interface{}) string {
+		vm.Run("var log=[]; function f(x){log.push('f'+x); return 'F'} function g(x){log.push('g'+x); return 'G'}")
+		v, err := vm.Call(src, this, 7)
+		if err != nil {
+			return apiErrTok(err)
+		}
+		l, _ := vm.Run("log.join(',')")
+		return apiTok(v.String() + "/" + l.String())
+	}
+	switch c {
+	case "runThrowToStringThrows":
+		_, err := vm.Run("throw {toString:function(){throw 1}}")
+		if err == nil {
+			return apiTok("no-error")
+		}
+		return apiErrTok(err)
+	case "runThrowUnconvertible":
+		_, err := vm.Run("throw {toString:function(){return {}},valueOf:function(){return {}}}")
+		if err == nil {
+			return apiTok("no-error")
+		}
+		return apiErrTok(err)
+	case "badIsNaN":
+		return apiTok(fmt.Sprint(bad().IsNaN()))
+	case "badToString":
+		s, err := bad().ToString()
+		if err != nil {
+			return apiErrTok(err)
+		}
+		return apiTok(s)
+	case "badToInteger":
+		n, err := bad().ToInteger()
+		if err != nil {
+			return apiErrTok(err)
+		}
+		return apiTok(fmt.Sprint(n))
+	case "badToFloat":
+		n, err := bad().ToFloat()
+		if err != nil {
+			return apiErrTok(err)
+		}
+		return apiTok(fmt.Sprint(n))
+	case "badToBoolean":
+		b, err := bad().ToBoolean()
+		if err != nil {
+			return apiErrTok(err)
+		}
+		return apiTok(fmt.Sprint(b))
+	case "badString":
+		return apiTok(bad().String())
+	case "badClass":
+		return apiTok(bad().Class())
+	case "callerLocationNoScript", "callerLocationScript":
+		vm.Set("host", func(call otto.FunctionCall) otto.Value { v, _ := otto.ToValue(call.CallerLocation()); return v })
+		var v otto.Value
+		var err error
+		if c == "callerLocationNoScript" {
+			hv, _ := vm.Get("host")
+			v, err = hv.Call(otto.UndefinedValue())
+		} else {
+			v, err = vm.Run("host()")
+		}
+		if err != nil {
+			return apiErrTok(err)
+		}
+		return apiTok(v.String())
+	case "setNilObject":
+		prim, _ := vm.Run("5")
+		if err := vm.Set("x", prim.Object()); err != nil {
+			return apiErrTok(err)
+		}
+		v, _ := vm.Run("typeof x")
+		return apiTok(v.String())
+	case "toValueNilObject":
+		v, err := vm.ToValue((*otto.Object)(nil))
+		if err != nil {
+			return apiErrTok(err)
+		}
+		return typeofArg(v)
+	case "argNilObject":
+		return typeofArg((*otto.Object)(nil))
+	case "toValueNilValue":
+		v, err := vm.ToValue((*otto.Value)(nil))
+		if err != nil {
+			return apiErrTok(err)
+		}
+		return typeofArg(v)
+	case "marshalFunction", "marshalObjectWithFunction", "marshalUndefined":
+		src := map[string]string{"marshalFunction": "(function(){})", "marshalObjectWithFunction": "({a:function(){},b:1})", "marshalUndefined": "undefined"}[c]
+		v, _ := vm.Run(src)
+		b, err := v.MarshalJSON()
+		if err != nil {
+			return apiErrTok(err)
+		}
+		return apiTok(string(b))
+	case "callTwoStatements":
+		return callLog("f(); g", nil)
+	case "callTwoStatementsThis":
+		return callLog("f(); g", 1)
+	case "callExprStatement":
+		return callLog("g //", nil)
+	}
+	return "bad-op"
+}
+
+var apiCases = []string{"runThrowToStringThrows", "runThrowUnconvertible", "badIsNaN", "badToString", "badToInteger", "badToFloat", "badToBoolean", "badString",
+	"badClass", "callerLocationNoScript", "callerLocationScript", "setNilObject", "toValueNilObject", "argNilObject", "toValueNilValue", "marshalFunction",
+	"marshalObjectWithFunction", "marshalUndefined", "callTwoStatements", "callTwoStatementsThis", "callExprStatement"}
+
+func genReentAPI(c *h.Ctx) {
+	for _, form := range []string{"ottoCall", "ottoCallThis", "ottoRun", "ottoEval", "valueCall", "objectCall"} {
+		for _, sh := range []string{"none", "var", "param", "catch", "with"} {
+			for _, m := range []string{"m", "p"} {
+				for _, d := range []string{"1", "2"} {
+					c.Add("reent "+form+" "+sh+" "+m+" "+d, "reent:"+form, "shadow:"+sh)
+				}
+			}
+		}
+	}
+	for _, a := range apiCases {
+		c.Add("api "+a, "api")
+	}
+}
+
 // ---------------------------------------------------------------- generators
 
 type intKind struct {
@@ -1277,5 +1530,6 @@ func genC15(c *h.Ctx) {
 	genJS(c, base, bd)
 	genCalls(c)
 	genCallsX(c)
+	genReentAPI(c)
 	genHeaps(c, base, bd)
 }
